@@ -2466,3 +2466,33 @@ Proof.
   rewrite <- (auto_idle n (fun _ => false) (split_spec 0 c) (in_range_split n c 0 R) q Hq).
   destruct (nth q (auto_labels n (fun _ : instr => false) false (split_spec 0 c)) None); split; congruence.
 Qed.
+
+(* ---- conjunctions quoted verbatim by Properties/C10.v ---- *)
+Lemma omembers_spec ls l n j :
+  (In j (omembers ls l n) <-> j < n /\ nth j ls None = Some l) /\ StronglySorted lt (omembers ls l n).
+Proof. split; [apply omembers_in|apply omembers_sorted]. Qed.
+
+Lemma union_find_spec n es :
+  (forall e, In e es -> fst e < n /\ snd e < n) ->
+  forall a b, find (uptree n es) a = find (uptree n es) b <-> conn es a b.
+Proof. intros H. exact (find_conn n es _ (uptree_spec n es H)). Qed.
+
+Lemma auto_labels_spec n ignore c :
+  in_range n c ->
+  let L := auto_labels n ignore false c in
+  length L = n /\
+  (forall q, q < n -> (nth q L None = None <-> touched c q = false)) /\
+  (forall a b k, a < n -> b < n -> nth a L None = Some k ->
+     (nth b L None = Some k <-> conn (edges ignore c) a b)) /\
+  (forall q k, q < n -> nth q L None = Some k -> forall j, j <= k -> exists q', q' < n /\ nth q' L None = Some j) /\
+  (forall q1 q2 k1 k2, q1 < n -> q2 < n -> nth q1 L None = Some k1 -> nth q2 L None = Some k2 -> k1 < k2 ->
+     exists r1, r1 < n /\ nth r1 L None = Some k1 /\ r1 <= q1 /\
+                forall x, x < n -> nth x L None = Some k2 -> r1 < x).
+Proof.
+  intros R. cbv zeta. split; [apply auto_labels_length|]. split; [exact (auto_idle n ignore c R)|].
+  split; [exact (auto_conn n ignore c R false)|]. split; [exact (auto_consecutive n ignore c false)|].
+  exact (auto_order n ignore c R false).
+Qed.
+
+Lemma keep_idle_spec n ignore c q : in_range n c -> q < n -> nth q (auto_labels n ignore true c) None <> None.
+Proof. intros R. exact (auto_keep_idle n ignore c R q). Qed.
